@@ -41,6 +41,17 @@ Definition TokOk (text : bytes) (tok : token) : Prop :=
   | _ => True
   end.
 
+(* where skip_bytes stops inside the stream, the byte is refused *)
+Lemma skip_bytes_curr f (s : stream) x r :
+  s_rest (skip_bytes f s) = x :: r -> s_pos (skip_bytes f s) < s_end (skip_bytes f s) -> f x = false.
+Proof.
+  unfold skip_bytes. cbn [s_pos s_end s_rest]. intros Hr Hlt.
+  destruct (scan_stop f (s_rest s) (N.to_nat (s_end s - s_pos s))) as [E|[E|(y & r' & E & Hy)]].
+  - lia.
+  - congruence.
+  - rewrite Hr in E. injection E as -> _. exact Hy.
+Qed.
+
 Section Tok.
 Variable text : bytes.
 Hypothesis Hvalid : valid_utf8_b text = true.
@@ -253,12 +264,24 @@ Proof.
   sb consume_byte_safe. intros s9 H9. cbn. apply PostS_intro; auto. ext.
 Qed.
 
-Lemma consume_decl_safe s : SInv s -> safe (consume_decl text s) (Ext s).
+Lemma consume_decl_loop_safe fuel : forall s, SInv s -> safe (consume_decl_loop text fuel s) (Ext s).
 Proof.
-  intros Hs. unfold consume_decl. cbv zeta.
-  pose proof (skip_bytes_not text s 62 eq_refl Hs) as H1.
-  eapply safe_mono; [eapply consume_byte_safe; eauto; reflexivity|]. intros s2 H2. ext.
+  induction fuel as [|fu IH]; intros s Hs; [exact I|]. cbn [consume_decl_loop]. cbv zeta.
+  assert (H1 : Ext s (skip_bytes (fun x => negb (x =? 62) && negb (x =? 34) && negb (x =? 39)) s)).
+  { apply (skip_bytes_stop text); [|apply Hs]. intros x Hx. unfold is_cont. lia. }
+  set (f := fun x => negb (x =? 62) && negb (x =? 34) && negb (x =? 39)) in *.
+  eapply safe_bind; [apply (curr_byte_safe text); apply H1|]. intros c (r & Hr & Hlt). cbv beta.
+  pose proof (skip_bytes_curr f s c r Hr Hlt) as Hc. unfold f in Hc.
+  assert (Ha : ascii c = true) by (unfold ascii; lia).
+  eapply safe_bind; [eapply (advance1_safe text Hvalid); eauto; apply H1|]. intros s2 H2. cbv beta.
+  destruct (c =? 62); [cbn; ext|]. cbv zeta.
+  pose proof (skip_bytes_not text s2 c Ha ltac:(eauto)) as H3.
+  eapply safe_bind; [eapply (consume_byte_safe text Hvalid); eauto|]. intros s4 H4. cbv beta.
+  eapply safe_mono; [apply IH; eauto|]. intros s5 H5. ext.
 Qed.
+
+Lemma consume_decl_safe s : SInv s -> safe (consume_decl text s) (Ext s).
+Proof. intros Hs. unfold consume_decl. apply consume_decl_loop_safe. exact Hs. Qed.
 
 Lemma parse_doctype_start_safe s : SInv s -> starts_with s (b "<!DOCTYPE") = true ->
   safe (parse_doctype_start text s)
